@@ -3,7 +3,6 @@
 package tlsx
 
 import (
-	"net"
 	"crypto/ed25519"
 	"crypto/rand"
 	"crypto/tls"
@@ -12,6 +11,7 @@ import (
 	"errors"
 	"io"
 	"math/big"
+	"net"
 	"sync"
 	"time"
 
